@@ -1129,7 +1129,7 @@ def embedding_case(draw, tier):
         case["obj"] = draw(gen.povm_case(shp, (2, 4)))
     elif t == "gate":
         # 2 qutrits: the depolarising kind has rank 81 and quara's embedding of it takes > 1 min; ranks <= 3 only
-        case["obj"] = draw(gen.gate_case(shp, max_rank=3).filter(lambda c: not (two and c["kind"] == "depol")))
+        case["obj"] = draw(gen.gate_case(shp, max_rank=3).filter(lambda c: not (two and (c["kind"] == "depol" or (c["kind"] == "weak" and c.get("sub") == "depol")))))
     else:
         case["obj"] = draw(gen.mprocess_case(shp, (2, 4), max_per=2))
         if case["obj"]["m"] == 4 and draw(st.booleans()):
